@@ -67,6 +67,25 @@ pub fn expectation(m: &Model) -> Expect {
             }
         }
     }
+    // C08: one count variable typed two ways (across locales or inside one value) is an error
+    for ns in m.namespaces() {
+        for path in m.default_keys(&ns) {
+            let mut sig = Sig::default();
+            for loc in &m.locales {
+                if m.defines(&ns, loc, &path) {
+                    if let Ok(r) = m.resolve(&ns, loc, &path) {
+                        sig.merge(&signature(&r));
+                    }
+                }
+            }
+            for (v, kinds) in &sig.counts {
+                if kinds.len() > 1 {
+                    let mix = kinds.contains(&CountKind::Plural);
+                    return Expect::Reject(format!("{} for count variable {v} at {}", if mix { "RangeAndPluralsMix" } else { "RangeTypeMissmatch" }, path.join(".")));
+                }
+            }
+        }
+    }
     match open {
         Some(w) => Expect::Open(w),
         None => Expect::Accept,
